@@ -254,8 +254,11 @@ func (r *c01run) client(conn grpc.ClientConnInterface, i int) {
 	}
 	want := st.respB
 	if sp.HeaderFirst {
-		if _, err := cs.Header(); err != nil {
-			r.fault("rpc %d (%s): Header(): %v", i, sp.Kind, err)
+		// (twice in a row every other time: a logging wrapper and the application both ask)
+		for k := 0; k < 1+i%2; k++ {
+			if _, err := cs.Header(); err != nil {
+				r.fault("rpc %d (%s): Header(): %v", i, sp.Kind, err)
+			}
 		}
 	}
 	if sp.HeaderConc {
